@@ -592,12 +592,61 @@ func errClass(rec *CallRecord) string {
 	return m
 }
 
+// c11Templates: a role holder that owns an NFT AND has an entry under the plain (nonce-less) key of the same token (a
+// freeze flag), then every nonce-taking function with hostile encodings of the nonce.
+var c11Templates = []func(g *Gen, run func(Op) bool){
+	func(g *Gen, run func(Op) bool) {
+		tok := pickFrom(g, "t11-tok", [][]byte{[]byte("SFT-0a0b0c"), []byte("NFT-112233")})
+		if _, busy := g.createRoleBusy(tok); busy || g.e.M.Issued[string(tok)] > 0 {
+			return
+		}
+		a := g.addr("t11-a")
+		b := g.dest("t11-b", a)
+		roles := [][]byte{tok}
+		for _, r := range allRoles[2:] {
+			roles = append(roles, []byte(r))
+		}
+		if !run(callOp(g.sysCall(g.shard(a), vmcommon.BuiltInFunctionSetESDTRole, a, roles...))) {
+			return
+		}
+		c := g.selfCall(vmcommon.BuiltInFunctionESDTNFTCreate, a, tok, []byte{5}, []byte("n"), []byte{}, []byte("h"), []byte("a"), []byte("u"))
+		c.Gas = ampleGas
+		if !run(callOp(c)) {
+			return
+		}
+		if g.pick("t11-freeze", 3) > 0 {
+			if !run(callOp(g.sysCall(g.shard(a), vmcommon.BuiltInFunctionESDTFreeze, a, tok))) {
+				return
+			}
+		}
+		nonces := [][]byte{{}, {0}, {0, 0, 0, 0, 0, 0, 0, 0, 0}, {1, 0, 0, 0, 0, 0, 0, 0, 0}, {1, 0, 0, 0, 0, 0, 0, 0, 1}, {0xff, 0xff, 0xff, 0xff, 0xff, 0xff, 0xff, 0xff}, {2, 0, 0, 0, 0, 0, 0, 0, 0, 0, 0, 0, 0, 0, 0, 0, 0}}
+		for _, fn := range []string{vmcommon.BuiltInFunctionESDTNFTUpdateAttributes, vmcommon.BuiltInFunctionESDTNFTAddURI, vmcommon.BuiltInFunctionESDTNFTAddQuantity, vmcommon.BuiltInFunctionESDTNFTBurn, vmcommon.BuiltInFunctionESDTNFTTransfer, vmcommon.BuiltInFunctionMultiESDTNFTTransfer} {
+			nb := nonces[g.pick("t11-nonce", len(nonces))]
+			var call *Call
+			switch fn {
+			case vmcommon.BuiltInFunctionESDTNFTTransfer:
+				call = g.selfCall(fn, a, tok, nb, []byte{1}, b)
+			case vmcommon.BuiltInFunctionMultiESDTNFTTransfer:
+				call = g.selfCall(fn, a, b, []byte{1}, tok, nb, []byte{1})
+			default:
+				call = g.selfCall(fn, a, tok, nb, []byte{1})
+			}
+			call.Gas = ampleGas
+			g.Layer = "G2"
+			g.Shape = append(g.Shape[:0], "hostile-nonce", "plain-key-entry")
+			if !run(callOp(call)) {
+				return
+			}
+		}
+	},
+}
+
 func TestC11(t *testing.T) {
-	runHistories(t, historyCfg{prop: "C11", weights: c11Weights, minSteps: 10, maxSteps: 60, nontrivial: func(rec *CallRecord, g *Gen) (string, bool) {
+	runHistories(t, historyCfg{prop: "C11", weights: c11Weights, minSteps: 10, maxSteps: 60, templates: c11Templates, templateP: 6, nontrivial: func(rec *CallRecord, g *Gen) (string, bool) {
 		if g.Layer != "G2" && g.Layer != "G3" {
 			return "", false
 		}
-		hostile := hasShape(g, "wrap-residue") || hasShape(g, "alias") || hasShape(g, "big-count")
+		hostile := hasShape(g, "wrap-residue") || hasShape(g, "alias") || hasShape(g, "big-count") || hasShape(g, "hostile-nonce") || hasShape(g, "nine-byte-number")
 		pastCount := rec.Res.Err == nil || !(strings.Contains(rec.Res.Err.Error(), "invalid arguments") || strings.Contains(rec.Res.Err.Error(), "nil "))
 		if !hostile && !pastCount {
 			return "", false
